@@ -226,7 +226,7 @@ func authenticateOrigin(r *http.Request, originHosts []string) error {
 		return fmt.Errorf("request Origin %q is not a valid URL with a host", origin)
 	}
 
-	if strings.EqualFold(r.Host, u.Host) {
+	if asciiEqualFold(r.Host, u.Host) {
 		return nil
 	}
 
@@ -243,7 +243,17 @@ func authenticateOrigin(r *http.Request, originHosts []string) error {
 }
 
 func match(pattern, s string) (bool, error) {
-	return filepath.Match(strings.ToLower(pattern), strings.ToLower(s))
+	return filepath.Match(asciiToLower(pattern), asciiToLower(s))
+}
+
+// asciiToLower lowers the ASCII letters of s. Host names are ASCII: strings.ToLower
+// would also map U+0130 to i and the Kelvin sign to k.
+func asciiToLower(s string) string {
+	b := []byte(s)
+	for i := range b {
+		b[i] = asciiLower(b[i])
+	}
+	return string(b)
 }
 
 func selectSubprotocol(r *http.Request, subprotocols []string) string {
